@@ -16,3 +16,4 @@ open O2P.Gate
 #print axioms or_inference_leaves_sound
 #print axioms post_flat_or_sound
 #print axioms post_flat_or_sound_proj
+#print axioms or_inference_all_sound
